@@ -68,22 +68,28 @@ def make(kind, prop, quick, thorough, long_every=30):
         if idx == 0:
             suite_stage(ctx, kind)
         long = ctx.tier == "thorough" and idx % long_every == 0
-        big = idx == 1 or (ctx.tier == "thorough" and idx % 400 == 7)
+        # scale and hub histories at fixed case numbers (what a run reaches must not hang on one draw)
+        big = "scale" if idx == 1 or (ctx.tier == "thorough" and idx % 400 == 7) else "hub" if idx == 2 or (ctx.tier == "thorough" and idx % 400 == 9) else False
         cfg = history.Cfg(rng, kind, long=long, big=big)
         if big:
-            ctx.event("big-history")
+            ctx.event(big + "-history")
         cfg.use_constructor = rng.random() < 0.3
         cfg.full_battery = (not long) and rng.random() < (0.05 if ctx.tier == "quick" else 0.2)  # every filter, window and width
         raw = []
         nviol = len(ctx.violations)
+        script = None
+        if big == "hub" and not (ctx.tier == "thorough" and idx % 800 == 9):  # scripted hub history (the random hub history stays in the thorough tier)
+            cfg.use_constructor = False
+            script = history.hub_script(rng, cfg)
+            ctx.event("scripted-hub-history")
         try:
-            live, trace = history.run_history(ctx, rng, cfg, battery_every=(40 if big else 3 if long else 1), tag=tag, raw=raw)
+            live, trace = history.run_history(ctx, rng, cfg, ops=script, battery_every=(40 if big else 3 if long else 1), tag=tag, raw=raw)
         except CaseAbort:
             # attach a minimised witness to the violation just recorded
             if len(ctx.violations) > nviol:
                 v = ctx.violations[-1]
                 try:
-                    small = history.minimise(cfg, raw, v["mechanism"], tag, budget=400 if len(raw) <= 150 else 40)
+                    small = history.minimise(cfg, raw, v["mechanism"], tag, budget=400 if len(raw) <= 60 else 30)
                     w = history.witness_of(cfg, small, tag) if small else None
                 except Exception as e:  # minimisation is best effort; the original witness stays
                     w = None
